@@ -669,7 +669,7 @@ func hpChunks(c vs.Chooser, data []byte, cuts []int, noWhole bool) ([][]byte, st
 }
 
 var hpFaultKinds = []string{"bitflip", "truncate", "byte_delete", "byte_insert", "byte_set", "dup_block", "swap_blocks",
-	"drop_block", "concat_blocks", "splice", "random_block", "foreign_block", "int_pad", "near_limit_literal"}
+	"drop_block", "concat_blocks", "splice", "random_block", "foreign_block", "int_pad", "near_limit_literal", "huge_size_update"}
 
 // hpDamage applies one in-flight fault to the delivery list and returns the new
 // list and the kind that actually fired.
@@ -834,6 +834,22 @@ func hpDamage(c vs.Chooser, ds []hpDeliv, alt func() [][]byte, maxStr int) ([]hp
 		out = append(out, nd)
 		out = append(out, ds[i:]...)
 		return out, kind, i
+	case "huge_size_update":
+		// a block that starts with a dynamic table size update whose value is far
+		// above any allowed maximum but whose low 32 bits are small (k*2^32 + s):
+		// it must be refused like any other update above the allowed maximum.
+		v := uint64(vs.Pick(c, 1, 2, 3, 1<<10))<<32 + uint64(vs.Pick(c, 0, 1, 31, 32, 100, 4096))
+		b := []byte{0x3f}
+		v -= 31
+		for v >= 128 {
+			b = append(b, byte(v&0x7f)|0x80)
+			v >>= 7
+		}
+		b = append(b, byte(v))
+		b = append(b, d.data...)
+		d.orig = nil
+		d.data = b
+		return ds, kind, i
 	case "int_pad":
 		// lengthen one multi-octet integer of the block without changing its
 		// value (5.1 allows it): the last octet gets the continuation bit and
